@@ -440,4 +440,14 @@ def axis_length(repo: Repo) -> RuleRun:
 
 axis_length.rule_id = "C04.AXIS-LENGTH"
 
-RULES = [alignment_branch, simple_only_if_equal, preserve_carried, results_before_copy, axis_direction, coincidence_complete, grade_idempotent, axis_length]
+def inversion_complete(repo: Repo) -> RuleRun:
+    """An anti-aligned neighbour gets Grading.inverted: every section keeps its length ratio and count together with its reciprocal expansion, in reversed order. Same rule as C03.INVERT-COMPLETE."""
+    from ..report import rebrand
+    from . import c03
+
+    return rebrand(c03.invert_complete(repo), PROP, "C04.INVERSION-COMPLETE")
+
+
+inversion_complete.rule_id = "C04.INVERSION-COMPLETE"
+
+RULES = [alignment_branch, simple_only_if_equal, preserve_carried, results_before_copy, axis_direction, coincidence_complete, grade_idempotent, axis_length, inversion_complete]
